@@ -38,6 +38,15 @@ func main() {
 		os.Exit(cmdAI(os.Args[2:]))
 	case "explain":
 		os.Exit(cmdExplain(os.Args[2:]))
+	case "anchors-ref":
+		repo := "/repo"
+		if len(os.Args) > 2 {
+			repo = os.Args[2]
+		}
+		if err := anchorsRefCmd(repo); err != nil {
+			fmt.Fprintln(os.Stderr, err)
+			os.Exit(2)
+		}
 	case "list":
 		var ids []string
 		for id := range props {
@@ -118,6 +127,10 @@ func cmdCheck(args []string) (code int) {
 	}()
 	p, loadErr = Load(*repo, Config{GOOS: *goos, GOARCH: *goarch, Tests: *tests}, *cg)
 	if loadErr == nil {
+		for _, rn := range p.Renames {
+			r.Note("renamed anchor: %s", rn)
+			fmt.Printf("  note: %s\n", rn)
+		}
 		d.Run(p, r)
 		if *tier == "thorough" {
 			runThorough(p, r, d, *repo, *verif, *noControls)
